@@ -167,4 +167,102 @@ theorem c08_capture_reenc (us us' : List PU) (hwf : ∀ u ∈ us, u.wf) (h : Ree
     unescapeCapture .on (String.ofList (renderU us')) = unescapeCapture .on (String.ofList (renderU us)) := by
   rw [c08_on_capture us hwf, c08_on_capture us' (h.wf hwf), h.dec_eq]
 
+/-! ## Captures as the code computes them, every spelling, the default setting -/
+
+/-- a unit with the escapes of unreserved octets undone: what `normalizeUnreserved` makes of it -/
+def normUnit : PU → PU
+  | .lit c => .lit c
+  | .esc a b => if isUnreserved (octet a b) then .lit (octet a b) else .esc a b
+
+theorem unres_ne_percent {c : Char} (h : isUnreserved c = true) : c ≠ '%' := by
+  intro e; subst e; revert h; decide
+
+theorem norm_eq_render (us : List PU) : us.flatMap PU.norm = renderU (us.map normUnit) := by
+  induction us with
+  | nil => rfl
+  | cons u rest ih =>
+    cases u with
+    | lit c => simp [renderU, PU.norm, normUnit, PU.render] at ih ⊢; exact ih
+    | esc a b =>
+      by_cases h : isUnreserved (octet a b) <;> simp [renderU, PU.norm, normUnit, PU.render, h] at ih ⊢ <;> exact ih
+
+theorem normUnit_wf (us : List PU) (hwf : ∀ u ∈ us, u.wf) : ∀ u ∈ us.map normUnit, u.wf := by
+  intro u hu
+  obtain ⟨x, hx, rfl⟩ := List.mem_map.mp hu
+  have := hwf x hx
+  cases x with
+  | lit c => exact this
+  | esc a b =>
+    by_cases h : isUnreserved (octet a b)
+    · simp only [normUnit, h, if_true]; exact unres_ne_percent h
+    · simp only [normUnit, h]; exact this
+
+/-- **What the code really decodes** — the tree cuts captures out of the *normalised* raw path: under `on` the
+captured value is still the fully decoded segment. -/
+theorem c08_on_capture_after_normalise (us : List PU) (hwf : ∀ u ∈ us, u.wf) :
+    unescapeCapture .on (String.ofList (normalizeL (renderU us))) = String.ofList (us.map PU.dec) := by
+  rw [normalizeL_render us hwf, norm_eq_render, c08_on_capture _ (normUnit_wf us hwf)]
+  congr 1
+  rw [List.map_map]
+  apply List.map_congr_left
+  intro x _
+  cases x with
+  | lit c => rfl
+  | esc a b => by_cases h : isUnreserved (octet a b) <;> simp [normUnit, PU.dec, h]
+
+/-- **The default setting `off`**: a value without encoded slash is decoded completely. -/
+theorem c08_off_capture (us : List PU) (hwf : ∀ u ∈ us, u.wf) (hs : us.any PU.isSlash = false) :
+    unescapeCapture .off (String.ofList (renderU us)) = String.ofList (us.map PU.dec) := by
+  unfold unescapeCapture
+  simp only [String.toList_ofList]
+  rw [unescapeKeepSlashL_render us hwf]
+  simp only [Option.map_some, Option.getD_some]
+  congr 1
+  induction us with
+  | nil => rfl
+  | cons u rest ih =>
+    simp only [List.any_cons, Bool.or_eq_false_iff] at hs
+    have := ih (fun x hx => hwf x (by simp [hx])) hs.2
+    cases u with
+    | lit c => simp [PU.decKeep, PU.dec, this]
+    | esc a b =>
+      have h1 : PU.isSlash (.esc a b) = false := hs.1
+      simp only [PU.isSlash] at h1
+      simp [PU.decKeep, PU.dec, this, h1]
+
+/-- **`off` at the level of `serve`**: whatever rule with the setting `off` the lookup selects, a request whose raw
+path contains an encoded slash is answered with the precondition error. -/
+theorem c08_off_never_accepts (s : Repo) (d : Bool) (q : ReqView) (h : containsEncodedSlash q.rawPath = true)
+    (v : RVal) (ps : List (String × String)) (hf : s.findRule d q = .rule v ps) (hv : v.esh = .off) :
+    (s.serve d q).exec = some .argument := by
+  unfold Repo.serve
+  simp [hf, execPrelude, hv, h]
+
+/-- every spelling is a re-encoding of its normal form -/
+theorem reenc_of_norm (us : List PU) (hwf : ∀ u ∈ us, u.wf) : Reenc (us.map normUnit) us := by
+  induction us with
+  | nil => exact .nil
+  | cons u rest ih =>
+    have ih' := ih (fun x hx => hwf x (by simp [hx]))
+    cases u with
+    | lit c => exact .keep _ ih'
+    | esc a b =>
+      have hw := hwf (.esc a b) (by simp)
+      by_cases h : isUnreserved (octet a b)
+      · simp only [List.map_cons, normUnit, h, if_true]
+        exact .enc _ a b h hw.1 hw.2 rfl ih'
+      · simp only [List.map_cons, normUnit, h]
+        exact .keep _ ih'
+
+/-- **All equivalent spellings, symmetrically**: two raw paths that agree once the escapes of unreserved octets are
+undone (any subset encoded on either side, either hex case, `%6a` vs `%6A`, `%61b` vs `a%62`) are served alike. -/
+theorem c08_spellings_equivalent (s : Repo) (hasDefault : Bool) (q : ReqView) (us us' : List PU)
+    (hwf : ∀ u ∈ us, u.wf) (hwf' : ∀ u ∈ us', u.wf) (h : us.map normUnit = us'.map normUnit) :
+    s.serve hasDefault (respell q (renderU us)) = s.serve hasDefault (respell q (renderU us')) := by
+  have e1 := c08_reencode_invariant s hasDefault q (us.map normUnit) us (normUnit_wf us hwf) (reenc_of_norm us hwf)
+  have e2 := c08_reencode_invariant s hasDefault q (us'.map normUnit) us' (normUnit_wf us' hwf') (reenc_of_norm us' hwf')
+  rw [e1, e2, h]
+
+example : [PU.esc '6' 'a', .lit 'b'].map normUnit = [PU.lit 'j', .esc '6' '2'].map normUnit := by decide
+
 end Heimdall.Props.C08
